@@ -25,18 +25,20 @@ Fixpoint script_loop (forks funcs : list N) (tasks : list task) (l : list (nat *
   match l with
   | [] => []
   | (i, r) :: tl =>
+      let pend := t_lost (tget g i) in            (* display_depth_set is false after a LOST marker *)
       let g1 := consume tasks g i r in
       let ts1 := stamp (tget g1 i) (r_time r) in
       match r_type r with
+      | LOST => script_loop forks funcs tasks tl g1        (* "Do nothing as of now" *)
       | ENTRY =>
           (* fstack_entry (fork fix-up), depth = display depth, fstack_update(ENTRY), then the filter *)
-          let ts2 := if existsb (N.eqb (r_addr r)) forks then set_fork ts1 (t_dd ts1 + 1) else ts1 in
-          let depth := t_dd ts2 in
+          let depth := if pend then t_sc ts1 - 1 else t_dd ts1 in
+          let ts2 := if existsb (N.eqb (r_addr r)) forks then set_fork ts1 (depth + 1) else ts1 in
           (if match_funcs funcs (r_addr r) then [CEntry i depth (r_time r) (r_addr r) (r_addr r)] else [])
             ++ script_loop forks funcs tasks tl (tset g1 i (set_dd ts2 (depth + 1)))
       | EXIT =>
           let f := fget (t_stack ts1) (t_sc ts1) in
-          let depth := N.pred (t_dd ts1) in                      (* fstack_update(EXIT) *)
+          let depth := if pend then t_sc ts1 else N.pred (t_dd ts1) in       (* fstack_update(EXIT) *)
           (if match_funcs funcs (r_addr r) then [CExit i depth (r_time r) (f_time f) (r_addr r) (r_addr r)] else [])
             ++ script_loop forks funcs tasks tl (tset g1 i (set_dd ts1 depth))
       end
